@@ -4,6 +4,8 @@ import (
 	"context"
 	"errors"
 	"fmt"
+	"os"
+	"path/filepath"
 	"regexp"
 	"sort"
 	"strings"
@@ -76,16 +78,16 @@ type TPkg struct {
 }
 
 type ScanObs struct {
-	Ran    bool        `json:"ran"`
-	Panic  bool        `json:"panic,omitempty"`
-	Failed bool        `json:"failed,omitempty"`
-	Inv    []TPkg      `json:"inv,omitempty"`
-	Status []StatusObs `json:"status,omitempty"`
-	Findings []Finding `json:"findings,omitempty"`
+	Ran      bool        `json:"ran"`
+	Panic    bool        `json:"panic,omitempty"`
+	Failed   bool        `json:"failed,omitempty"`
+	Inv      []TPkg      `json:"inv,omitempty"`
+	Status   []StatusObs `json:"status,omitempty"`
+	Findings []Finding   `json:"findings,omitempty"`
 }
 
 type Obs struct {
-	Class  string      `json:"class"` // ok | err:<abort> | panic
+	Class  string      `json:"class"`  // ok | err:<abort> | panic
 	Events [][3]string `json:"events"` // kind (V|R|X), ext, path
 	Inv    []TPkg      `json:"inv,omitempty"`
 	Status []StatusObs `json:"status,omitempty"`
@@ -117,8 +119,11 @@ type Case struct {
 	MaxSize   int         `json:"max_size,omitempty"`
 	Fatal     bool        `json:"fatal,omitempty"`
 	Cancel    Cancel      `json:"cancel"`
-	Note      string      `json:"note,omitempty"`
-	Obs       Obs         `json:"obs"`
+	// OnDisk: the (single, fault-free, regular-files-only) root is materialised in a temporary directory and scanned
+	// through scalibrfs.DirFS with a real ScanRoot.Path; DirsToSkip / PathsToExtract are given as absolute paths.
+	OnDisk bool   `json:"on_disk,omitempty"`
+	Note   string `json:"note,omitempty"`
+	Obs    Obs    `json:"obs"`
 }
 
 // ---------------------------------------------------------------- recorder, fakes
@@ -152,11 +157,11 @@ type fakeExt struct {
 	min  *int64 // FileRequired also wants api.Stat().Size() >= *min
 }
 
-func (e *fakeExt) Name() string                                { return e.name }
-func (e *fakeExt) Version() int                                { return 1 }
-func (e *fakeExt) Requirements() *plugin.Capabilities          { return &plugin.Capabilities{} }
-func (e *fakeExt) ToPURL(*extractor.Package) *purl.PackageURL  { return nil }
-func (e *fakeExt) Ecosystem(*extractor.Package) string         { return "" }
+func (e *fakeExt) Name() string                               { return e.name }
+func (e *fakeExt) Version() int                               { return 1 }
+func (e *fakeExt) Requirements() *plugin.Capabilities         { return &plugin.Capabilities{} }
+func (e *fakeExt) ToPURL(*extractor.Package) *purl.PackageURL { return nil }
+func (e *fakeExt) Ecosystem(*extractor.Package) string        { return "" }
 func (e *fakeExt) FileRequired(api filesystem.FileAPI) bool {
 	e.rec.events = append(e.rec.events, [3]string{"R", e.name, api.Path()})
 	if !e.req[api.Path()] {
@@ -201,6 +206,7 @@ func (e *fakeExt) Extract(_ context.Context, in *filesystem.ScanInput) (inventor
 // ---------------------------------------------------------------- running the implementation
 
 type setup struct {
+	tmp   string // on-disk cases: the directory the root was materialised in
 	hits  int
 	rec   *recorder
 	ctx   context.Context
@@ -241,8 +247,19 @@ func (c *Case) setup() *setup {
 		}
 		s.exts = append(s.exts, fe)
 	}
-	for _, r := range c.Roots {
-		s.roots = append(s.roots, &scalibrfs.ScanRoot{FS: &memFS{root: r, patFiles: c.PatFiles, hits: &s.hits}, Path: ""})
+	if c.OnDisk {
+		tmp, err := os.MkdirTemp("", "walk-ondisk-")
+		if err != nil {
+			panic(err)
+		}
+		s.tmp = tmp
+		materialise(tmp, c.Roots[0], c.PatFiles)
+		reorderAsListed(tmp, c.Roots[0])
+		s.roots = append(s.roots, &scalibrfs.ScanRoot{FS: scalibrfs.DirFS(tmp), Path: tmp})
+	} else {
+		for _, r := range c.Roots {
+			s.roots = append(s.roots, &scalibrfs.ScanRoot{FS: &memFS{root: r, patFiles: c.PatFiles, hits: &s.hits}, Path: ""})
+		}
 	}
 	if c.Regex != nil {
 		s.re = regexp.MustCompile(*c.Regex)
@@ -251,6 +268,72 @@ func (c *Case) setup() *setup {
 		s.gl = glob.MustCompile(*c.Glob)
 	}
 	return s
+}
+
+// abs turns scan-root relative option paths into the absolute ones a real scan root expects.
+func (s *setup) abs(ps []string) []string {
+	if s.tmp == "" {
+		return ps
+	}
+	var out []string
+	for _, p := range ps {
+		if p == "." {
+			out = append(out, s.tmp)
+		} else {
+			out = append(out, filepath.Join(s.tmp, filepath.FromSlash(p)))
+		}
+	}
+	return out
+}
+
+func (s *setup) cleanup() {
+	if s.tmp != "" {
+		os.RemoveAll(s.tmp)
+	}
+}
+
+func materialise(dir string, n *Node, pats [][]string) {
+	for _, c := range n.Children {
+		p := filepath.Join(dir, c.Name)
+		if c.isDir() {
+			if err := os.Mkdir(p, 0o755); err != nil {
+				panic(err)
+			}
+			materialise(p, c, pats)
+			continue
+		}
+		data := make([]byte, c.Size)
+		if c.Name == ".gitignore" && c.Data >= 1 && c.Data <= len(pats) {
+			data = []byte(strings.Join(pats[c.Data-1], "\n") + "\n")
+			c.Size = int64(len(data))
+		}
+		if err := os.WriteFile(p, data, 0o644); err != nil {
+			panic(err)
+		}
+	}
+}
+
+// reorderAsListed puts the children of every directory in the order the real directory lists them.
+func reorderAsListed(dir string, n *Node) {
+	f, err := os.Open(dir)
+	if err != nil {
+		panic(err)
+	}
+	ents, err := f.ReadDir(-1)
+	f.Close()
+	if err != nil {
+		panic(err)
+	}
+	pos := map[string]int{}
+	for i, e := range ents {
+		pos[e.Name()] = i
+	}
+	sort.SliceStable(n.Children, func(i, j int) bool { return pos[n.Children[i].Name] < pos[n.Children[j].Name] })
+	for _, c := range n.Children {
+		if c.isDir() {
+			reorderAsListed(filepath.Join(dir, c.Name), c)
+		}
+	}
 }
 
 func classify(err error) string {
@@ -263,7 +346,7 @@ func classify(err error) string {
 		return "err:inodes"
 	case errors.Is(err, context.Canceled):
 		return "err:ctx"
-	case strings.HasPrefix(msg, "handleFile("):
+	case strings.HasPrefix(msg, "handleFile("), strings.HasPrefix(msg, "walkIndividualPaths("):
 		return "err:fs"
 	case strings.HasPrefix(msg, "failed to get file size"):
 		return "err:size"
@@ -321,6 +404,7 @@ func invObs(pkgs []*extractor.Package) []TPkg {
 func runCase(c *Case, withScan bool) {
 	c.Obs = Obs{}
 	s := c.setup()
+	defer s.cleanup()
 	func() {
 		defer func() {
 			if r := recover(); r != nil {
@@ -329,8 +413,8 @@ func runCase(c *Case, withScan bool) {
 			}
 		}()
 		inv, sts, err := filesystem.Run(s.ctx, &filesystem.Config{
-			Extractors: s.exts, ScanRoots: s.roots, PathsToExtract: c.Paths, IgnoreSubDirs: c.IgnoreSub,
-			DirsToSkip: c.SkipList, SkipDirRegex: s.re, SkipDirGlob: s.gl, UseGitignore: c.Gitignore,
+			Extractors: s.exts, ScanRoots: s.roots, PathsToExtract: s.abs(c.Paths), IgnoreSubDirs: c.IgnoreSub,
+			DirsToSkip: s.abs(c.SkipList), SkipDirRegex: s.re, SkipDirGlob: s.gl, UseGitignore: c.Gitignore,
 			Stats: collector{rec: s.rec}, ReadSymlinks: c.Symlinks, MaxInodes: c.MaxInodes, MaxFileSize: c.MaxSize,
 			ErrorOnFSErrors: c.Fatal,
 		})
@@ -350,6 +434,7 @@ func runCase(c *Case, withScan bool) {
 		return
 	}
 	s2 := c.setup()
+	defer s2.cleanup()
 	c.Obs.Scan = ScanObs{Ran: true}
 	func() {
 		defer func() {
@@ -359,7 +444,7 @@ func runCase(c *Case, withScan bool) {
 		}()
 		res := scalibr.New().Scan(s2.ctx, &scalibr.ScanConfig{
 			FilesystemExtractors: s2.exts, Detectors: c.detectors(), Capabilities: &plugin.Capabilities{}, ScanRoots: s2.roots,
-			PathsToExtract: c.Paths, IgnoreSubDirs: c.IgnoreSub, DirsToSkip: c.SkipList, SkipDirRegex: s2.re,
+			PathsToExtract: s2.abs(c.Paths), IgnoreSubDirs: c.IgnoreSub, DirsToSkip: s2.abs(c.SkipList), SkipDirRegex: s2.re,
 			SkipDirGlob: s2.gl, MaxFileSize: c.MaxSize, UseGitignore: c.Gitignore, Stats: collector{rec: s2.rec},
 			ReadSymlinks: c.Symlinks, MaxInodes: c.MaxInodes, ErrorOnFSErrors: c.Fatal,
 		})
@@ -434,7 +519,14 @@ func coqNode(n *Node) string {
 		}
 		return fmt.Sprintf("(Df %d %s %s %s %s)", nameID(n.Name), cf.List(items), cf.Bool(n.FOpen), ra, cf.Bool(n.FStat))
 	}
-	kind := map[string]string{"reg": "Reg", "sym": "Sym", "special": "Special"}[n.Kind]
+	kind := map[string]string{"reg": "Reg", "sym": "Sym"}[n.Kind]
+	if n.Kind == "special" {
+		b := n.Bits
+		if b == 0 {
+			b = 8
+		}
+		kind = fmt.Sprintf("(Special %d)", b)
+	}
 	if !n.faulty() {
 		return fmt.Sprintf("(Fc %d %s %s %d)", nameID(n.Name), kind, cf.Z(n.Size), n.Data)
 	}
